@@ -26,7 +26,7 @@ UNITS = {}      # property id -> list of Unit
 class Unit:
     def __init__(self, prop, name, prove=None, replay=None, concrete=None, scope="unbounded", tiers=("quick", "thorough"),
                  timeout_ms=None, expect_min=1, may_raise=None, assumptions=(), bounded_desc=None, weight=1, hints=None,
-                 array_mode="cells"):
+                 array_mode="cells", replay_once=False):
         self.prop, self.name = prop, name
         self.prove, self.replay, self.concrete = prove, replay, concrete
         self.scope = scope              # "unbounded" | "shape:<desc>"  (per-shape proofs are reported separately)
@@ -39,6 +39,7 @@ class Unit:
         self.weight = weight
         self.hints = hints
         self.array_mode = array_mode
+        self.replay_once = replay_once
         UNITS.setdefault(prop, []).append(self)
 
 
@@ -176,7 +177,11 @@ def _unit_worker(args):
                     if unit.replay is not None:
                         try:
                             mv = ModelView(r["model"], r.get("cells", []))
-                            rp = unit.replay(mv, ob)
+                            if unit.replay_once and "_replay_cache" in res:
+                                rp = res["_replay_cache"]
+                            else:
+                                rp = unit.replay(mv, ob)
+                                res["_replay_cache"] = rp
                             rec["replay"] = rp
                         except Exception as e:
                             rec["replay"] = dict(reproduced=False, error="replay harness failed: %s: %s" % (type(e).__name__, e),
@@ -226,6 +231,7 @@ def _unit_worker(args):
                 res["bounded"] = dict(name=uname, bound=unit.bounded_desc or "", cases=0, failures=[],
                                       error="%s: %s" % (type(e).__name__, e), tb=traceback.format_exc()[-2000:])
     res["time_s"] = round(time.time() - t0, 3)
+    res.pop("_replay_cache", None)
     return res
 
 
